@@ -142,6 +142,7 @@ struct World
 	bool interesting = false;   // a binding was released, re-taken or contended: the history says something about C11
 	int max_slots = 9;
 	std::uint64_t next_tag = 0x7a67000000000001ull;
+	int last_eph = 2000;        // highest ephemeral port seen in this history (the counter is global)
 
 	std::string trace; std::uint64_t th = 0;
 	int step_no = 0;
@@ -472,6 +473,8 @@ struct World
 			if (port == 0)
 			{
 				R().count("ephemeral_binds");
+				last_eph = std::max(last_eph, lp);
+				for (int d = 1; d <= 4; ++d) if (lp - d >= 1024 && reg.count(key(s.proto(), la, lp - d))) { R().count("ephemeral_binds_stepping_over_held_port"); break; }
 				if (lp < 1024)
 				{
 					bad("ephemeral-port-below-1024", fmt("%s of slot %d to port 0 yielded %s", what, i, ap_str(la, lp).c_str()));
@@ -775,6 +778,7 @@ struct World
 			API(le = cs->local_endpoint(ec));
 			Conn& c = conns[std::size_t(id)];
 			c.laddr = le.address(); c.lport = le.port(); c.have_local = !ec && le.port() != 0;
+			last_eph = std::max(last_eph, int(le.port()));
 			pc.push_back(id);
 		};
 		for (auto const& e : reg) if (e.first.first == 0) tcp_probe(e.first.second.first, e.first.second.second);
@@ -865,6 +869,35 @@ struct World
 		check_all("probe round");
 		if (failed) return;
 
+		// ---- nothing lost: every endpoint the reference says is held is still refused to a fresh socket
+		// (in particular after the sockets accepted from the probe clients were closed just above)
+		for (auto const& e : reg)
+		{
+			RegKey const k = e.first;
+			int const n = node_of(k.second.first);
+			if (n < 0) continue;
+			error_code ec;
+			if (k.first == 0)
+			{
+				ip::tcp::socket t(*nodes[std::size_t(n)].ios);
+				API(t.open(k.second.first.is_v4() ? ip::tcp::v4() : ip::tcp::v6(), ec));
+				API(t.bind(ip::tcp::endpoint(k.second.first, std::uint16_t(k.second.second)), ec));
+			}
+			else
+			{
+				ip::udp::socket t(*nodes[std::size_t(n)].ios);
+				API(t.open(k.second.first.is_v4() ? ip::udp::v4() : ip::udp::v6(), ec));
+				API(t.bind(ip::udp::endpoint(k.second.first, std::uint16_t(k.second.second)), ec));
+			}
+			if (ec != boost::asio::error::address_in_use)
+			{
+				bad(ec ? "bind-error-not-applicable" : "held-endpoint-bindable", fmt("the reference says slot %d holds %s %s, yet a fresh socket binding it got '%s' instead of address_in_use"
+					, e.second, k.first ? "udp" : "tcp", ap_str(k.second.first, k.second.second).c_str(), ec ? ec.message().c_str() : "success"));
+				return;
+			}
+			R().count("held_endpoints_refused_to_fresh_socket");
+		}
+
 		// ---- nothing stale: every sampled free endpoint can be bound right now
 		for (int proto = 0; proto < 2; ++proto)
 		{
@@ -945,6 +978,8 @@ void random_bind_args(World& w, Slot const& s, ip::address& a, int& port)
 			return;
 		}
 	}
+	// a port the ephemeral counter is about to reach: later port-0 binds have to step over it
+	if (rng.coin(1, 8) && w.last_eph < 65000) { a = rng.coin(1, 4) ? wild : own; port = w.last_eph + 1 + rng.choose(4); return; }
 	switch (rng.choose(10))
 	{
 		case 0: case 1: case 2: a = own; port = rng.pick(w.ports); break;
@@ -1091,7 +1126,7 @@ void exh_history(Args const& a, Rng& rng, int steps, std::uint64_t& th_out, Worl
 	out = wp;
 	World& w = *wp;
 	w.aux.reseed(hcomb(a.seed, 77));
-	w.ports = {5000};
+	w.ports = {2001};
 	w.build({{addr("10.0.0.1"), addr("2001:db8::1")}});
 	static Kind const kinds[4] = {K_ACC, K_TCP, K_UDP, K_UDP};
 	int const EXH_SLOTS = exh_slots(a);
@@ -1114,13 +1149,13 @@ void exh_history(Args const& a, Rng& rng, int steps, std::uint64_t& th_out, Worl
 		switch (op)
 		{
 			case 0: if (!s.exists) w.op_create(i); w.op_open(i, true); break;
-			case 1: if (s.exists && !(s.open && (s.bound || s.accepted))) w.op_bind(i, A, 5000); else w.tr(fmt("s%d.nop", i)); break;
+			case 1: if (s.exists && !(s.open && (s.bound || s.accepted))) w.op_bind(i, A, 2001); else w.tr(fmt("s%d.nop", i)); break;
 			case 2: if (s.exists && !(s.open && (s.bound || s.accepted))) w.op_bind(i, any4, 0); else w.tr(fmt("s%d.nop", i)); break;
 			case 3:
 				if (!s.exists) w.tr(fmt("s%d.nop", i));
 				else if (s.kind == K_ACC) w.op_listen(i);
-				else if (s.kind == K_TCP) { if (!s.connected && !busy) w.op_connect(i, A, 5000, true); else w.tr(fmt("s%d.nop", i)); }
-				else if (!(s.open && s.bound)) w.op_bind(i, any4, 5000); else w.tr(fmt("s%d.nop", i));
+				else if (s.kind == K_TCP) { if (!s.connected && !busy) w.op_connect(i, A, 2001, true); else w.tr(fmt("s%d.nop", i)); }
+				else if (!(s.open && s.bound)) w.op_bind(i, any4, 2001); else w.tr(fmt("s%d.nop", i));
 				break;
 			case 4: if (s.exists) w.op_close(i, st % 2 == 0); else w.tr(fmt("s%d.nop", i)); break;
 			case 5: if (s.exists && !busy) w.op_move(i, st % 2 == 1); else w.tr(fmt("s%d.nop", i)); break;
